@@ -21,13 +21,13 @@ CLAIMS = {
     "C01": ("proof",
             "Decided at the gates every insertion must pass: time-window/shift gate (accept => step simulation of the inserted leg feasible; complete over all f64 in [0,1e9] in the thorough tier, "
             "integer-valued domain in the quick tier), capacity gate has_demand_violation for Single- and MultiDimLoad (sound and complete w.r.t. the fit conditions; complete proofs, loops are the constant 8), "
-            "load algebra == element-wise spec, and the combinator consulting every constraint (bounded <= 3)." + GLUE,
+            "load algebra == element-wise spec, tour size gate exact (complete), distance-limit gate exact and duration-limit gate sound against a replay (bounded), job-group gate (bounded), the combinator consulting every constraint (bounded <= 3); lemmas L01 (capacity conditions => no point of the interval exceeds capacity) and L06 (latest-arrival recurrence => later windows kept), any length." + GLUE,
             "Trusted: Kani/CBMC; stub environments of the extracted gates; meaning of cached latest_arrival / load vectors (U03a bounded); every search operator, goal assembly, "
             "skills/groups/compatibility/tour-order/reachable/break/reload/recharge/locking gates are NOT under contract: a mutation there is not detected.",
             TECH_K, "§3 C01"),
     "C02": ("proof",
             "Primitives that move a job between buckets: JobRemovalTracker::try_remove_job (exact whole-state postcondition: job leaves one tour entirely and is queued once, locked/other routes/unassigned/ignored untouched, "
-            "false => nothing changes) verified against the verified contracts of every Tour mutator (representation invariant jobs == jobs of activities); Verus, unbounded." + GLUE,
+            "false => nothing changes) verified against the verified contracts of every Tour mutator (representation invariant jobs == jobs of activities); Verus, unbounded; lemma L02: removal / insertion / finalisation steps satisfying these contracts conserve, for every job, the number of places it lives in." + GLUE,
             "Trusted: Verus/Z3; Job identity model (Arc pointer identity), Vec::retain contract; insertion application, finalisation, route removal, decomposition merge, solution_writer are NOT under contract.",
             TECH_V, "§3 C02"),
     "C03": ("model_checking",
@@ -63,8 +63,8 @@ CLAIMS = {
             TECH_K + " on a whole-crate overlay", "§3 C08"),
     "C09": ("model_checking",
             "InsertionCost: cmp == lexicographic total_cmp over zero-padded vectors, antisymmetric/reflexive, eq/partial_cmp/operators agree, add/sub element-wise with missing = 0, inverse on the exact domain "
-            "(vector lengths <= 3 enumerated, every finite f64 component); transitivity length <= 2; dominance_order (multi-objective layers) is the Pareto dominance relation, reflexive and antisymmetric (<= 3 objectives); lemma L09: lexicographic order over padded sequences is a total preorder for any lengths (Verus). Goal::total_order itself not yet under contract.",
-            "Bounded by vector length (constants enumerated); real tinyvec compiled in; goal layers (models/goal.rs) and dominance_order not under contract.",
+            "(vector lengths <= 3 enumerated, every finite f64 component); transitivity length <= 2; dominance_order (multi-objective layers) is the Pareto dominance relation, reflexive and antisymmetric (<= 3 objectives); lemma L09: lexicographic order over padded sequences is a total preorder for any lengths (Verus); Goal::total_order == lexicographic comparison of fitness with +0 == -0 for two single-objective layers, reflexive/antisymmetric/transitive (bounded, U09b).",
+            "Bounded by vector length / layer count (constants enumerated); real tinyvec compiled in; goals with a multi-objective layer only through dominance_order (U09c).",
             TECH_K + " (bounded lengths)", "§3 C09"),
     "C10": ("model_checking",
             "The shared time-window rule check_time_windows == documented rule E1103 for <= 3 (thorough: 4) windows (found defect F2, fixed); TimeWindow::intersects == inclusive overlap. "
@@ -73,8 +73,8 @@ CLAIMS = {
             TECH_K + " (bounded)", "§3 C10"),
     "C14": ("proof",
             "Tour: representation invariant (depot ends in place, interior activities carry jobs, job set == jobs of activities) preserved by every mutator with whole-view postconditions, getters equal their spec - "
-            "Verus, unbounded, hence all operation histories.",
-            "Trusted: Verus/Z3; Job identity model; Vec::retain contract; legs()/index()/deep_copy and the vehicle registry are NOT under contract (iterator adapters).",
+            "Verus, unbounded, hence all operation histories; legs() enumeration incl. the open-end leg and the bare-start case, index/index_last/job_activities, deep_copy independence (Kani, bounded <= 3 job activities).",
+            "Trusted: Verus/Z3 + Kani; Job identity model; Vec::retain contract; the vehicle registry clause is NOT decided (unit U14c does not finish in CBMC and is disabled).",
             TECH_V, "§3 C14"),
     "C15": ("proof",
             "First sentence: the reducer (choose_best_result, BestResultSelector::select_insertion, select_cost) returns one of its arguments with the minimal cost (Verus); lemma L15: every fold/reduce tree over any "
@@ -83,13 +83,13 @@ CLAIMS = {
             TECH_V + " + lemma", "§3 C15"),
     "C16": ("proof",
             "Time-agnostic and simple matrix providers return exactly the row-major entry of the profile's matrix, durations multiplied (same f64 operation) by profile.scale, distances unscaled, fallback exactly when absent - "
-            "Verus, any matrix size and profile count.",
-            "Floats uninterpreted (operation identity, not numerics); time-aware interpolation, constructors' rejections, fleet_reader, haversine are NOT under contract.",
+            "Verus, any matrix size and profile count; time-dependent look-ups (value at a matrix timestamp, first/last outside the span, linear interpolation / left value in between) on a provider state built directly (Kani, bounded <= 3 matrices).",
+            "Floats uninterpreted in the Verus unit (operation identity, not numerics); TimeAwareMatrixTransportCost::new (does not finish in CBMC: seeded change C16 is missed), the other constructors' rejections, fleet_reader, haversine are NOT under contract.",
             TECH_V, "§3 C16"),
     "C18": ("proof",
             "SlotMachine: one-step contract from any state in the invariant box (shape +1/2 and positive, rate non-decreasing positive finite, variance finite >= 0, mean within hull of old mean and reward up to one ulp, "
             "sampler preconditions met) - complete in the thorough tier (n < 2^40), n < 2^12 in the quick tier; termination estimates in [0,1] (see C07); MinVariation::is_termination updates its window exactly once per generation in every phase and fires iff allowed and the window says so (bounded, U18d).",
-            "Trusted: powi(2) = x*x; sampler contract; rewards <= 1e4; history link by integer lemma (planned L18); reward computation, weighted/argmax selection, MinVariation not under contract.",
+            "Trusted: powi(2) = x*x; sampler contract; rewards <= 1e4; history link by integer lemma L18 (Verus); reward computation, weighted/argmax selection, MinVariation not under contract.",
             TECH_K, "§3 C18"),
     "C19": ("proof",
             "Compaction clause only: the coordinate remap used by GSOM compaction (get_offset) is proved strictly monotone on the surviving rows/columns "
@@ -98,8 +98,8 @@ CLAIMS = {
             "Trusted: Kani/CBMC; Network::compact passes (3,4); network shape contains the origin; contract_graph/Network::remap glue and all training code unverified.",
             TECH_K + " (loop-free, complete)", "§3 C19"),
     "C20": ("model_checking",
-            "Distance objective: estimate_leg's quoted delta equals total_distance(after) - total_distance(before) exactly, for empty tour (vehicle ending at a different location than it starts), first/last/open-end leg (bounded <= 1 existing job activity, integer-valued matrix).",
-            "Bounded Kani harnesses; unassigned/tour-count/value objectives and CostObjective not under contract yet.",
+            "Distance objective: estimate_leg's quoted delta equals total_distance(after) - total_distance(before) exactly, for empty tour (vehicle ending at a different location than it starts), first/last/open-end leg (bounded <= 1 existing job activity, integer-valued matrix); unassigned-jobs and number-of-tours objectives: quote == change (bounded); lemma L20 (telescoping, any tour length).",
+            "Bounded Kani harnesses; total-value objective and CostObjective not under contract.",
             TECH_K + " (bounded)", "§3 C20"),
 }
 
